@@ -44,7 +44,7 @@ func c14Doc(rt *rapid.T) []byte {
 func TestC14(t *testing.T) {
 	runProp(t, "C14", func(e *env) {
 		r := e.r
-		e.rapidStage("histories", "stateful", e.cfg.N(2500, 250000), func(rt *rapid.T) {
+		e.rapidStage("histories", "stateful", e.cfg.N(1500, 250000), func(rt *rapid.T) {
 			var run c14Runner
 			var hist []core.Case
 			hkey := uint64(14695981039346656037)
@@ -60,15 +60,25 @@ func TestC14(t *testing.T) {
 					r.Label("step.reentrant")
 				}
 				if info.nontrivial && r.WantSample(hkey) {
-					r.Sample(map[string]interface{}{"history_len": len(hist), "last_step": step.Kind, "last_doc": core.Preview(step.In), "last_handler": step.Ints, "reentrant": info.reentrant})
+					r.Sample(map[string]interface{}{"history": describeSteps(hist), "last_handler": step.Ints, "reentrant": info.reentrant})
 				}
 				if err != nil {
 					cc := &core.Case{Prop: "C14", Kind: "history", Steps: append([]core.Case(nil), hist...)}
 					failRapid(rt, r, cc, fmt.Errorf("step %d: %w", len(hist)-1, err))
 				}
 			}
+			// repeat count: mostly 1; small documents are sometimes repeated thousands of times
+			repeat := func(rt *rapid.T, doc []byte) int64 {
+				if len(doc) > 64 {
+					return 1
+				}
+				return []int64{1, 1, 1, 1, 1, 3, 40, 2600, 12000}[rapid.IntRange(0, 8).Draw(rt, "repeat")]
+			}
 			plain := func(name string) func(*rapid.T) {
-				return func(rt *rapid.T) { do(core.Case{Kind: name, In: c14Doc(rt)}) }
+				return func(rt *rapid.T) {
+					doc := c14Doc(rt)
+					do(core.Case{Kind: name, In: doc, Ints: []int64{0, 0, 0, 0, repeat(rt, doc)}})
+				}
 			}
 			handler := func(name string) func(*rapid.T) {
 				return func(rt *rapid.T) {
@@ -80,7 +90,7 @@ func TestC14(t *testing.T) {
 					if rapid.IntRange(0, 2).Draw(rt, "reentrant?") > 0 {
 						re = int64(rapid.IntRange(1, 5).Draw(rt, "reentry"))
 					}
-					do(core.Case{Kind: name, In: doc, Ints: []int64{mode, k, int64(bits), re}})
+					do(core.Case{Kind: name, In: doc, Ints: []int64{mode, k, int64(bits), re, repeat(rt, doc)}})
 				}
 			}
 			rt.Repeat(map[string]func(*rapid.T){
